@@ -4,6 +4,7 @@
                                   sched = string of thread digits
      explore K <depth> <clients>  bounded search for a failing schedule
      judge K <clients> <sched>    per-step judgement of one schedule
+     mexplore 0|1 <depth> <clients>  Identifiable: search interleavings of ctor/dtor/get_object (1 = also report unguarded accesses)
      wb K <clients> <sched>       are the clients well-bracketed along this schedule (Spinlock theorems' hypothesis)
      reg P|D|G <ops>               Identifiable/DefaultSettable history: c<slot> d<slot> g<n> s<slot> q *)
 let the_prog = if Array.length Sys.argv > 1 && Sys.argv.(1) = "gen" then M.gen_prog else M.reviewed_prog
@@ -87,6 +88,17 @@ let do_wb k clients sched =
     (match M.adv p k t !m with Some (m2, _) -> m := m2 | None -> ())) sched;
   if !ok then "wb" else "not-wb"
 
+(* Identifiable, fine-grained: clients = threads joined by '/', operations c<addr> d<addr> g<id> joined by ',' *)
+let mixins_prog = if Array.length Sys.argv > 1 && Sys.argv.(1) = "gen" then M.gen_mixins else M.reviewed_mixins
+let rop_of tok =
+  let a = n_of_string (String.sub tok 1 (String.length tok - 1)) in
+  match tok.[0] with 'c' -> M.RCreate a | 'd' -> M.RDestroy a | 'g' -> M.RGet a | _ -> failwith "rop"
+let mclients_of s =
+  List.map (fun w -> if w = "-" then [] else List.map rop_of (String.split_on_char ',' w)) (String.split_on_char '/' s)
+let mreason_str = function
+  | M.MBadUnresolvable -> "unresolvable-live-object" | M.MBadDeadResolvable -> "dead-id-resolves"
+  | M.MBadUnguarded -> "unguarded-access"
+
 let reason_str = function
   | M.BadMutex -> "mutex" | M.BadRace -> "race" | M.BadWrap -> "wrap" | M.BadQuiescent -> "quiescent"
   | M.BadOwnerTryFails -> "owner-try-fails" | M.BadStuck -> "stuck" | M.BadSideEffect -> "side-effect"
@@ -114,6 +126,11 @@ let () = iter_lines (fun line ->
     (match String.split_on_char ' ' (String.trim line) with
      | ["run"; k; cl; sc] -> do_run (kind_of k) (clients_of cl) (sched_of sc)
      | ["wb"; k; cl; sc] -> do_wb (kind_of k) (clients_of cl) (sched_of sc)
+     | ["mexplore"; strict; d; cl] ->
+       (match M.mexplore mixins_prog (strict = "1") (mclients_of cl) (nat_of_int (int_of_string d)) with
+        | None -> "none"
+        | Some (sc, why) -> Printf.sprintf "found %s %s"
+            (String.concat "" (List.map (fun t -> string_of_int (int_of_nat t)) sc)) (mreason_str why))
      | ["explore"; k; d; cl] ->
        (match M.explore the_prog (kind_of k) (clients_of cl) (nat_of_int (int_of_string d)) with
         | None -> "none"
